@@ -9,10 +9,12 @@ mod c03;
 mod c04;
 mod c05;
 mod c06;
+mod c08;
 mod c09;
 mod c10;
 mod c11;
 mod c12;
+mod c13;
 mod corpus;
 mod feed;
 mod c14;
@@ -73,10 +75,12 @@ fn main() {
         "C04" => c04::main(&args),
         "C05" => c05::main(&args),
         "C06" => c06::main(&args),
+        "C08" => c08::main(&args),
         "C09" => c09::main(&args),
         "C10" => c10::main(&args),
         "C11" => c11::main(&args),
         "C12" => c12::main(&args),
+        "C13" => c13::main(&args),
         "C14" => c14::main(&args),
         "C15" => c15::main(&args),
         "C20" => c20::main(&args),
